@@ -245,6 +245,15 @@ Lemma write_leaf_overflow_u k w nm z :
   write_leaf PStd k (TPtr (TBasic (KUint w) nm)) (VInt z) = Err 31.
 Proof. intros Hk Hr. destruct k; try contradiction; simpl; now rewrite Hr. Qed.
 
+Lemma write_leaf_overflow_f32 nm z :
+  (float_bound 32 * 1024 <= Z.abs z)%Z ->
+  write_leaf PStd (FkFloat 64) (TPtr (TBasic (KFloat 32) nm)) (VFloat z) = Err 31.
+Proof.
+  intros H. unfold write_leaf, fits.
+  destruct (Z.abs z <? float_bound 32 * 1024)%Z eqn:E; [|reflexivity].
+  apply Z.ltb_lt in E. lia.
+Qed.
+
 (* whatever the package: if some visited flag cannot be written, or an
    occurrence does not parse, Value yields no value *)
 Theorem flag_bad_value_is_error_l p ne te fs tmpl occs regs states r st k :
